@@ -91,6 +91,8 @@ struct Case
     int late = 0; // the last `late` entries are declared only after a first parse() on the object
     int moved = 0; // 1: the parser is move-constructed before parsing, 2: move-assigned onto a used parser
     bool argc0 = false; // parse(0, {NULL}): the empty argument vector without even a program name
+    bool putenv_mode = false; // bound variables live in buffers owned by the harness (putenv) and are changed in
+                              // place between calls, as POSIX allows
     int reconfig = 0;   // bit 0: greedy mode is first set to the opposite, bit 1: the accepted count is first
                         // set to something else - the last call of a setter decides
 
@@ -109,6 +111,7 @@ struct Case
         a("moved", moved);
         a("argc0", argc0);
         a("reconfig", reconfig);
+        a("putenv", putenv_mode);
     }
 };
 
@@ -718,10 +721,24 @@ inline std::unique_ptr<nitro::options::parser> build_parser(const Case& c,
     return p;
 }
 
+// buffers for putenv mode: "NAME=value", handed to putenv() once and rewritten in place afterwards
+struct PutenvBuffers
+{
+    static const std::size_t SIZE = 9000;
+    char buf[16][SIZE];
+    bool registered[16] = {};
+};
+inline PutenvBuffers& putenv_buffers()
+{
+    static PutenvBuffers* b = new PutenvBuffers;
+    return *b;
+}
+
 inline void apply_env(const Case& c, const Step& st)
 {
     for (std::size_t i = 0; i < c.e.size(); ++i)
     {
+
         if (env_owner(c, i) != i)
             continue; // shares the variable of an earlier entry
         std::string n = env_name(i);
@@ -734,9 +751,30 @@ inline void apply_env(const Case& c, const Step& st)
         if (st.neighbours)
         {
             ::unsetenv(n.c_str());
+            if (i < 16)
+                putenv_buffers().registered[i] = false;
             ::setenv((n + "_MAX").c_str(), "9", 1);
             ::setenv((n + "0").c_str(), "true", 1);
             ::setenv(("X" + n).c_str(), "neighbour", 1);
+        }
+        std::string word = es == 1 ? std::string() : (es == 2 ? st.env_word[i] : std::string());
+        if (c.putenv_mode && i < 16 && es != 0 && n.size() + word.size() + 2 < PutenvBuffers::SIZE &&
+            word.find('\0') == std::string::npos)
+        {
+            PutenvBuffers& pb = putenv_buffers();
+            std::string entry = n + "=" + word;
+            std::memcpy(pb.buf[i], entry.c_str(), entry.size() + 1); // in place if already part of environ
+            if (!pb.registered[i])
+            {
+                ::putenv(pb.buf[i]);
+                pb.registered[i] = true;
+            }
+            continue;
+        }
+        if (i < 16 && putenv_buffers().registered[i])
+        {
+            ::unsetenv(n.c_str());
+            putenv_buffers().registered[i] = false;
         }
         if (es == 0)
             ::unsetenv(n.c_str());
@@ -753,6 +791,7 @@ inline void clear_env()
     {
         std::string n = env_name(i);
         ::unsetenv(n.c_str());
+        putenv_buffers().registered[i] = false;
         ::unsetenv((n + "_MAX").c_str());
         ::unsetenv((n + "0").c_str());
         ::unsetenv(("X" + n).c_str());
